@@ -7,6 +7,7 @@ import (
 	"path/filepath"
 	"strings"
 	"sync"
+	"syscall"
 
 	"verif/internal/core"
 )
@@ -55,6 +56,14 @@ func runTrace(env *core.Env, t Trace, verbose bool) bool {
 			bin = env.Verif
 			if r.RandBase < 0 {
 				r.RandBase = 0
+			}
+		}
+		if r.HoldLock {
+			if fd, err := syscall.Open(filepath.Join(r.Cwd, ".ergo", "lock"), syscall.O_RDONLY, 0); err == nil {
+				defer syscall.Close(fd)
+				if syscall.Flock(fd, syscall.LOCK_EX|syscall.LOCK_NB) == nil {
+					defer syscall.Flock(fd, syscall.LOCK_UN)
+				}
 			}
 		}
 		return core.Spawn{Bin: bin}.Run(r)
